@@ -256,9 +256,9 @@ def unwrap_stackslice(spec: StackSlice) -> Iterator[types.FrameType]:
         # to those threads that have yielded the GIL since it was
         # called. We'll just have to accept the potential race
         # condition.
-        for ident, inner_frame in sys._current_frames().items():
+        for ident, thread_inner_frame in sys._current_frames().items():
             if ident != threading.get_ident():
-                frames = try_from(inner_frame)
+                frames = try_from(thread_inner_frame)
                 if frames:
                     break
 
